@@ -71,10 +71,12 @@ package netconf
 
 // selfClosed(b): what the self-closing rewrite makes of b (its body is regex-driven and not verified)
 //@ spec selfClosed(b []byte) []byte
-//@ func ForceSelfClosingTags
-//@   noverify
-//@   pure
-//@   ensures result === selfClosed(b)
+//@ func ForceSelfClosingTags [C03]
+//@   nosafety
+//@   modifies alloc()
+//@   assumed ensures result === selfClosed(b)
+//@   at call! ReplaceAll#1 assert #only-an-element-whose-opening-and-closing-names-agree-is-collapsed sm[1] == sm[3] && arg0 == b && arg1 == sm[0]
+//@   loop 1 invariant rangeindex >= -1
 
 //@ func (*message).serialize [C03]
 //@   ensures #each-option-changes-only-what-it-names result.1 == nil && !forceSelfClosingTags ==> result.0.rawXML === (excludeHeader ? "" : xmlHeader) ++ xmlOf(box("*netconf.message", m))
